@@ -164,7 +164,33 @@ func (r *Run) checkModel(asserts []*Term, extra []*Term) (string, map[string]str
 			return res, m
 		}
 	}
-	return r.solver.check(asserts, true, extra)
+	res, m := r.solver.check(asserts, true, extra)
+	if res == "sat" && (m == nil || wideChars(m)) {
+		// no model, or one with characters that are no bytes (z3 likes code points like U+1FFD0 for order
+		// constraints; the engine's strings are byte strings): ask cvc5, whose models stay small
+		if r2, m2 := r.solver.altSolver().check(asserts, true, extra); r2 == "sat" && m2 != nil && !wideChars(m2) {
+			return res, m2
+		}
+	}
+	return res, m
+}
+
+// wideChars: some string value of the model has an SMT-LIB escape for a code point above 0xFF
+func wideChars(m map[string]string) bool {
+	for _, v := range m {
+		for i := 0; i+3 < len(v); i++ {
+			if v[i] == '\\' && v[i+1] == 'u' && v[i+2] == '{' {
+				j := i + 3
+				for j < len(v) && v[j] != '}' {
+					j++
+				}
+				if j-(i+3) > 2 {
+					return true
+				}
+			}
+		}
+	}
+	return false
 }
 
 func (r *Run) model() map[string]string {
